@@ -117,6 +117,10 @@ class Ctx:
             self.der_verdict(args[0], I, C, info)
         elif I != C or I == "crash":
             c.fail("py_secp256k1 and ctypes_secp256k1 disagree on %s" % fn, dict(info, op=fn))
+        elif inplace == "bytes" and I != "none":
+            # an immutable bytes object handed to an in-place variant: the only lawful outcome is an exception under
+            # BOTH backends ("ok ..." means the call returned, i.e. it wrote into -- or silently ignored -- the object)
+            c.fail("in-place %s accepted an immutable bytes object under both backends" % fn, dict(info, op=fn))
         return I, C
 
     def der_verdict(self, der, I, C, info):
@@ -426,15 +430,17 @@ def gen_recoverable(x, k):
 
 
 def inplace_bytes_probe(x):
-    """the in-place variants on an immutable bytes argument (known finding C08-KF1)"""
+    """the in-place variants on an immutable bytes argument (C08-KF1, fixed by fixes/c08-kf1.diff: both backends
+    raise and neither writes into the object; `case` demands that, no classifier any more)"""
     x.case("ec_privkey_tweak_add", [be(5), be(1)], inplace="bytes", note="immutable bytes buffer")
     x.case("ec_pubkey_tweak_add", [x.pub(5), be(1)], inplace="bytes", note="immutable bytes buffer")
-
-
-def kf_inplace_bytes(rec):
-    """C08-KF1: exactly the in-place variants handed an immutable `bytes` buffer, py raising and ctypes succeeding"""
-    return (rec.get("inplace") == "bytes" and rec.get("fn") in ("ec_privkey_tweak_add", "ec_pubkey_tweak_add")
-            and rec.get("py") == "none" and str(rec.get("ctypes", "")).startswith("ok "))
+    # also on operands the C function would refuse anyway, and on boundary keys
+    x.case("ec_privkey_tweak_add", [be(N - 1), be(1)], inplace="bytes", note="immutable bytes buffer, sum = 0")
+    x.case("ec_privkey_tweak_add", [be(0), be(1)], inplace="bytes", note="immutable bytes buffer, invalid secret")
+    x.case("ec_privkey_tweak_add", [be(1)[:31], be(1)], inplace="bytes", note="immutable bytes buffer, length")
+    x.case("ec_pubkey_tweak_add", [x.pub(1), be(N - 1)], inplace="bytes", note="immutable bytes buffer, infinity")
+    x.case("ec_pubkey_tweak_add", [x.pub(N - 1), be(0)], inplace="bytes", note="immutable bytes buffer, zero tweak")
+    x.case("ec_pubkey_tweak_add", [bytes(64), be(1)], inplace="bytes", note="immutable bytes buffer, invalid pubkey")
 
 
 def corpus(x):
@@ -475,7 +481,6 @@ def explore(c, scale):
 
 def run(tier, seed):
     c = Check(PROP, MODS, tier, seed)
-    c.classifiers["inplace_bytes_buffer"] = kf_inplace_bytes
     c.rule = ("every binding function shared by py_secp256k1 and ctypes_secp256k1 (26) on operands drawn from the boundary "
               "pool {0,1,2,n-2,n-1,n,n+1,(n-1)/2,(n+1)/2,p-1,p,p+1,2^256-1,p-n,p-n-1}, operands summing to 0 / the point at "
               "infinity, invalid and non-canonical structures (all-zero, off-curve, coordinates >= p, odd-Y x-only keys, "
